@@ -35,11 +35,31 @@ def build(repo, findings):
     u.raw('impl TokenParseState {')
     u.add(f)
     u.raw('}\n')
+    # ---- Tokenizer::next_char: the cursor counts characters
+    src.require_text(r'char_reader: std::iter::Peekable<utf8_chars::Chars<\'a, R>>,', 'Tokenizer.char_reader is a peekable character reader')
+    u.raw('''// projection of Tokenizer / CrossTokenParseState to what next_char touches (the reader is opaque: one character per call, None at the end)
+#[verifier::external_body] pub struct CharReader { _p: u8 }
+pub enum TokenizerError { ReadError, Other }
+pub struct CrossTokenParseState { pub cursor: SourcePosition }
+pub struct Tokenizer { pub char_reader: CharReader, pub cross_state: CrossTokenParseState }
+#[verifier::external_body] pub fn reader_next(r: &mut CharReader) -> Result<Option<char>, TokenizerError> { unimplemented!() }    // char_reader.next().transpose().map_err(ReadError)
+''')
+    nc = src.method_anywhere('next_char').r1()
+    nc.resub(r'self\s*\.char_reader\s*\.next\(\)\s*\.transpose\(\)\s*\.map_err\(TokenizerError::ReadError\)\?', 'reader_next(&mut self.char_reader)?', 'R14', 'reader call chain -> stub (one character, None at the end, Err on a read error)', count=1)
+    nc.sig('next_char', ret='res', requires=[C('aux the-counters-have-room (one step per character of the input)', 'old(self).cross_state.cursor.index < usize::MAX && old(self).cross_state.cursor.line < usize::MAX && old(self).cross_state.cursor.column < usize::MAX')], ensures=[
+        C('C19 the-cursor-index-counts-characters-one-per-character-read', 'res is Ok ==> final(self).cross_state.cursor.index == old(self).cross_state.cursor.index + (if res->Ok_0 is Some { 1int } else { 0int })'),
+        C('C19 the-cursor-never-moves-back', 'final(self).cross_state.cursor.index >= old(self).cross_state.cursor.index'),
+        C('C19 a-newline-starts-a-new-line-at-column-one', "(res is Ok && res->Ok_0 == Some('\\n')) ==> (final(self).cross_state.cursor.line == old(self).cross_state.cursor.line + 1 && final(self).cross_state.cursor.column == 1)"),
+        C('C19 any-other-character-moves-one-column-on', "(res is Ok && res->Ok_0 is Some && res->Ok_0 != Some('\\n')) ==> (final(self).cross_state.cursor.line == old(self).cross_state.cursor.line && final(self).cross_state.cursor.column == old(self).cross_state.cursor.column + 1)"),
+    ])
+    u.raw('impl Tokenizer {')
+    u.add(nc)
+    u.raw('}\n')
     u.raw(FOOTER)
     u.assume('external_body', 'the derived Clone of SourcePosition behind to_owned / clone_into is a field-wise copy (ASSUMED)')
     u.assume('assume_specification', 'std::mem::take: the old value out, T::default() left; bool defaults to false and String to the empty string (axioms)')
     u.assume('uninterp', 'default_spec')
     u.assume('axiom', 'Default of bool and of String')
-    u.assume('stub', 'that the position given is the cursor and that the cursor never moves back (Tokenizer::next_char only adds) is read off next_char, not proved; tokens queued for here-documents leave their state in another order (sorted again by the highlighter: U20c)')
-    u.expected_min_fns = 1
+    u.assume('stub', 'that the position handed to pop is the cursor is read off the call sites, not proved; the cursor itself counts characters and never moves back (next_char, under contract here); tokens queued for here-documents leave their state in another order (sorted again by the highlighter: U20c)')
+    u.expected_min_fns = 2
     return u
